@@ -2,9 +2,15 @@
 package c08
 
 import (
+	"crypto/sha256"
+	"fmt"
+	"os"
+	"path/filepath"
+	"strings"
 	"testing"
 
 	"github.com/versity/versitygw/backend"
+	"replay/gwtest"
 )
 
 func TestOpenEndedCopySourceRange(t *testing.T) {
@@ -15,5 +21,59 @@ func TestOpenEndedCopySourceRange(t *testing.T) {
 	start, length, err = backend.ParseCopySourceRange(10, "bytes=0-")
 	if err != nil || start != 0 || length != 10 {
 		t.Fatalf("ParseCopySourceRange(10, \"bytes=0-\") = (%d, %d, %v), want (0, 10, nil)", start, length, err)
+	}
+}
+
+// An empty upload id names the directory that holds all uploads of a key: UploadPart with ?uploadId=&partNumber=7 was
+// accepted without any upload having been initiated and left a part file there.
+func TestEmptyUploadIdIsNoUpload(t *testing.T) {
+	g := gwtest.Start(t, gwtest.Options{})
+	g.MustStatus(g.Put(g.RootC, "/bkt", nil, nil), 200, "create bucket")
+	g.MustStatus(g.Post(g.RootC, "/bkt/obj?uploads", nil, nil), 200, "initiate an upload for the key")
+	r := g.Put(g.RootC, "/bkt/obj?uploadId=&partNumber=7", []byte("stray part"), nil)
+	if r.Err != nil || r.Status/100 == 2 {
+		t.Errorf("UploadPart with an empty upload id: %v, want NoSuchUpload", r)
+	}
+	found := false
+	filepath.Walk(filepath.Join(g.Root, "bkt", ".sgwtmp"), func(p string, fi os.FileInfo, err error) error {
+		if err == nil && !fi.IsDir() && filepath.Base(p) == "7" {
+			found = true
+			t.Errorf("part file %s was created", p)
+		}
+		return nil
+	})
+	_ = found
+	if r := g.Delete(g.RootC, "/bkt/obj?uploadId=", nil); r.Status/100 == 2 {
+		t.Errorf("AbortMultipartUpload with an empty upload id: %v, want NoSuchUpload", r)
+	}
+}
+
+func startUpload(t *testing.T, g *gwtest.GW) string {
+	g.MustStatus(g.Put(g.RootC, "/bkt", nil, nil), 200, "create bucket")
+	r := g.Post(g.RootC, "/bkt/obj?uploads", nil, nil)
+	g.MustStatus(r, 200, "initiate upload")
+	id := string(r.Body)
+	id = id[strings.Index(id, "<UploadId>")+len("<UploadId>") : strings.Index(id, "</UploadId>")]
+	g.MustStatus(g.Put(g.RootC, "/bkt/obj?partNumber=1&uploadId="+id, []byte("part one"), nil), 200, "upload part")
+	return id
+}
+
+// OPEN FINDING (fails on the current tree): HeadObject with a part number answers from an upload in progress.
+func TestHeadObjectPartNumberShowsNoUploadInProgress(t *testing.T) {
+	g := gwtest.Start(t, gwtest.Options{})
+	startUpload(t, g)
+	if r := g.Head(g.RootC, "/bkt/obj?partNumber=1"); r.Status/100 == 2 {
+		t.Errorf("HEAD /bkt/obj?partNumber=1 while /bkt/obj does not exist: %d, Content-Length %s", r.Status, r.Header.Get("Content-Length"))
+	}
+}
+
+// OPEN FINDING (fails on the current tree): the part file of an upload in progress can be read as an object.
+func TestPartFileIsNotAnObject(t *testing.T) {
+	g := gwtest.Start(t, gwtest.Options{})
+	id := startUpload(t, g)
+	sum := sha256.Sum256([]byte("obj"))
+	key := fmt.Sprintf("/bkt/.sgwtmp/multipart/%x/%s/1", sum, id)
+	if r := g.Get(g.RootC, key, nil); r.Status/100 == 2 {
+		t.Errorf("GET %s: %d %q", key, r.Status, r.Body)
 	}
 }
